@@ -101,6 +101,7 @@ type Spec struct {
 	SlowStarted   bool    // yield a few times inside Started
 	SlowStopped   int     // yield this many times inside Stopped (a shutdown that takes a while)
 	UserCtx       bool    // spawned WithContext(the run's cancellable user context)
+	MWPanicStopped bool   // the outermost middleware panics on Stopped before calling next
 }
 
 func (s *Spec) FullID() string { return s.Kind + "/" + s.ID }
@@ -401,6 +402,13 @@ func (env *Env) middleware(id string, i int) actor.MiddlewareFunc {
 				return
 			}
 			k, um, other := msgKind(c.Message())
+			if i == 0 && k == dStopped && in.Spec != nil && in.Spec.MWPanicStopped {
+				// the outermost middleware fails on Stopped before calling next: the
+				// panic must be contained, and nobody may hand Stopped to the
+				// receiver behind the chain's back
+				simrt.Fault("middleware-crash-in-Stopped")
+				panic(fmt.Sprintf("scripted crash in middleware 0 of %s on Stopped", in.ID))
+			}
 			tag := dNames[k]
 			if um != nil {
 				tag = fmt.Sprintf("m%d", um.ID)
